@@ -132,28 +132,30 @@ func c06Cases(m *model.State, maxLen int) []c06Case {
 					tmsgs = append([]model.Msg{{Kind: model.AuthzExec, From: "O", Inner: msgs[:1]}}, msgs[1:]...)
 				}
 				offers := []string{"", new(big.Int).Sub(req, big.NewInt(1)).String(), req.String(), new(big.Int).Add(req, big.NewInt(1)).String()}
-				// each module's own sum, when both modules are present (what each decorator compares with)
-				sw, sb := new(big.Int), new(big.Int)
+				// every sum over a proper subset of the module messages (what a fee computation that drops,
+				// overwrites or double-skips a message would compare with); this includes each module's own
+				// sum when both modules are present (what each decorator compares with)
+				var fees []*big.Int
 				for _, mm := range msgs {
 					if f, ok := m.AnchorFee(mm); ok {
-						if strings.HasPrefix(mm.Kind, "wrk.") {
-							sw.Add(sw, f)
-						} else {
-							sb.Add(sb, f)
-						}
+						fees = append(fees, f)
 					}
 				}
-				if sw.Sign() > 0 && sb.Sign() > 0 {
-					for _, x := range []*big.Int{sw, sb} {
-						dup := false
-						for _, o := range offers {
-							if o == x.String() {
-								dup = true
-							}
+				for mask := 1; mask < (1<<len(fees))-1; mask++ {
+					x := new(big.Int)
+					for i, f := range fees {
+						if mask&(1<<i) != 0 {
+							x.Add(x, f)
 						}
-						if !dup {
-							offers = append(offers, x.String())
+					}
+					dup := false
+					for _, o := range offers {
+						if o == x.String() {
+							dup = true
 						}
+					}
+					if !dup {
+						offers = append(offers, x.String())
 					}
 				}
 				for _, off := range offers {
@@ -361,7 +363,7 @@ func c06Extra(t Tier, ev *Evidence) []Violation {
 	ev.Coverage["admitted"] = admitted
 	ev.Coverage["outcomes"] = hist
 	ev.Coverage["exhaustive"] = exhaustive
-	ev.Coverage["rule"] = fmt.Sprintf("from %d base states (three payer classes: rich, liquid<fee<=liquid+locked, poor; three fee-parameter sets incl. one changed by governance): all message sequences of length <= %d over %v x wrapping {top, all nested in MsgExec, first nested} x offered {absent, required-1, required, required+1} x extra denom {no, yes} x CheckTx mode {new, recheck}; one real CheckTx each; distinct = distinct (wrapping, sequence, offered-vs-required, payer, extra) classes", len(bases), maxLen, c06Alphabet)
+	ev.Coverage["rule"] = fmt.Sprintf("from %d base states (three payer classes: rich, liquid<fee<=liquid+locked, poor; three fee-parameter sets incl. one changed by governance): all message sequences of length <= %d over %v x wrapping {top, all nested in MsgExec, first nested} x offered {absent, required-1, required, required+1, every proper subset sum of the per-message fees} x extra denom {no, yes} x CheckTx mode {new, recheck}; one real CheckTx each; distinct = distinct (wrapping, sequence, offered-vs-required, payer, extra) classes", len(bases), maxLen, c06Alphabet)
 	ev.Coverage["samples"] = samples
 	if admitted == 0 {
 		fmt.Fprintln(os.Stderr, "WARNING C06: no transaction was admitted at all; the one-sided oracle is vacuous on this tree")
